@@ -236,10 +236,9 @@ func (i *interpreter) axiomOnce(key string, t *sym.Term) {
 		return
 	}
 	i.axiomSeen[key] = true
-	i.axioms = append(i.axioms, t)
-	if i.solver != nil {
-		i.solver.AddAxiom(t)
-	}
+	// instantiated axioms are facts: they join the path condition, so they live exactly as long
+	// as the path that applied the function (and are sliced like any other conjunct)
+	i.addPC(t)
 }
 
 // mathLog models math.Log on the extended reals with ln uninterpreted.
@@ -338,6 +337,23 @@ func (i *interpreter) mathPow(x, y value) value {
 	c := i.ctx
 	z := c.RealI(0)
 	one := c.RealI(1)
+	// small constant integer exponents are exact for every base: repeated multiplication,
+	// and a division for negative exponents (x = 0 gives +Inf as in math.Pow)
+	if e, ok := i.fConcrete(b); ok && e == math.Trunc(e) && math.Abs(e) <= 4 && e != 0 {
+		n := int(math.Abs(e))
+		p := a
+		for k := 1; k < n; k++ {
+			p = i.fMul(p, a)
+		}
+		if e < 0 {
+			p = i.fDiv(i.liftF(1), p)
+			if n%2 == 0 {
+				// 1/(+0) and 1/(-0) are both +Inf for even powers; the abstraction has no signed zero
+				p = &FV{Nan: p.Nan, Inf: p.Inf, V: c.Ite(p.Inf, one, p.V)}
+			}
+		}
+		return i.fSimp(p)
+	}
 	okDom := c.And(c.Not(a.Nan), c.Not(b.Nan), c.Not(a.Inf), c.Not(b.Inf), c.Lt(z, a.V))
 	if !i.decide(okDom) {
 		// outside the modelled domain: x <= 0 or non-finite operands
